@@ -480,6 +480,11 @@ class Machine:
         st = self.st
         x, _ = self.cur()
         n = st.draw(2, 8, "oversample")
+        if st.coin(1, 8, "large-n"):
+            # any n >= 2 is admissible: grids built from a float step go wrong for particular n only (49, 98, 103, ...)
+            n = st.draw(9, 300, "oversample-large")
+            if (len(x) - 1) * n + 1 > MAX_LEN:
+                n = max(2, (MAX_LEN - 1) // max(1, len(x) - 1))
         if (len(x) - 1) * n + 1 > MAX_LEN or len(x) < 2:
             return None
         s = st.pick(STRATEGIES, "strategy")
@@ -943,7 +948,11 @@ class Machine:
         classes = ["ctor-mismatched-lengths", "ctor-not-Nx2", "recreate-n-below-2", "interpolate-unknown-method",
                    "interpolate-grid-endpoints", "interpolate-neither", "truncate-inverted-range", "truncate-index-bounds",
                    "slice-index-bounds", "slice-value-not-a-sample", "unknown-dataset"]
-        if self.match_ready():
+        if n < 3:
+            # one or two samples left: only the requests whose refusal does not depend on there being intervals
+            classes = ["ctor-mismatched-lengths", "ctor-not-Nx2", "recreate-n-below-2", "truncate-index-bounds",
+                       "slice-index-bounds", "unknown-dataset", "recreate-n-below-2"]
+        elif self.match_ready():
             classes += ["match-unknown-target-rule", "match-unknown-reference-rule", "match-unknown-strategy",
                         "match-fixed-points-not-samples", "match-fixed-points-too-many"] * 2
         rx, _ = self.ref()
@@ -954,6 +963,8 @@ class Machine:
         if c == "ctor-mismatched-lengths":
             k = st.draw(1, 3) * (1 if st.coin(1, 2, "longer") else -1)
             m = max(1, n + k)
+            if m == n:
+                m = n + 1
             xf, yf = st.pick(("array", "list"), "x-form"), st.pick(("array", "list"), "y-form")
             xa = np.arange(m, dtype=float) if xf == "array" else [float(i) for i in range(m)]
             ya = np.asarray(y, dtype=float) if yf == "array" else [float(v) for v in y]
@@ -963,6 +974,8 @@ class Machine:
             # shapes tied to the current length and small fixed ones (a 2-vector is not a (1, 2) array)
             shape = st.pick(((n, 3), (n,), (n, 2, 1), (2, n + 1), (n, 1), (2,), (1,), (3,), (4,), (), (1, 3), (2, 3),
                              (1, 2, 1), (2, 2, 2), (1, 1, 2), (3, 1), (2, 1)), "shape")
+            if len(shape) == 2 and shape[1] == 2:
+                shape = (shape[0], 3)                   # (2, n + 1) is a perfectly valid array when one sample is left
             d["call"] = lambda wv: W.from_2d_array(np.zeros(shape))
             d["text"] = f"Weaver.from_2d_array(array of shape {shape})"
         elif c == "recreate-n-below-2":
@@ -1507,6 +1520,16 @@ def _run_c20(M, params):
         g = M.gen_recreate()
         if g is not None:
             M.apply(*g)
+    if not M.model.reshaped and st.coin(1, 12, "degenerate-tail"):
+        # a valid history may leave a single sample (or two): checks that look at the current state must still refuse
+        x, _ = M.cur()
+        keep = st.draw(1, 2, "samples-left")
+        i = st.draw(0, len(x) - keep, "first-kept")
+        M.apply("truncate_by_index", {"start": i, "stop": i + keep})
+        M.count("degenerate-tail")
+        for _ in range(st.draw(1, 2, "n-invalid")):
+            M.inject_invalid()
+        return
     for _ in range(st.draw(1, 3, "n-invalid")):
         M.inject_invalid()
         for _ in range(st.draw(0, 3, "suffix")):
